@@ -5,7 +5,7 @@ open List
 open Pretty
 open Ref
 open SerRoundTrip
-open TablesOk
+open TablesDefs
 
 (** val quote_string : coq_N list -> coq_N list **)
 
